@@ -97,13 +97,17 @@ def initConf (prog : List UStep) (nUpd : Nat) : Conf :=
   { threads := fun t => if 1 ≤ t ∧ t ≤ nUpd then .upd t 0 prog else .rd .start }
 
 /-- **publication discipline**: every store into the cell is a NEW record both of whose components come from this call
-(balancer built over the argument, the argument itself), and a published record is never written. -/
-def publishOk (prog : List UStep) : Bool :=
-  prog.all (fun a => match a with
-    | .publish l h => l == .fresh && h == .fresh
-    | .mutLb _ => false
-    | .mutHs _ => false
-    | _ => true)
+— the balancer already built over the argument (`built`), and the argument itself — and a published record is never
+written. -/
+def okFrom (built : Bool) : List UStep → Bool
+  | [] => true
+  | .buildLB :: r => okFrom true r
+  | .publish l h :: r => built && l == .fresh && h == .fresh && okFrom built r
+  | .mutLb _ :: _ => false
+  | .mutHs _ :: _ => false
+  | _ :: r => okFrom built r
+
+def publishOk (prog : List UStep) : Bool := okFrom false prog
 
 /-- the regenerated code publishes coherently and reads through one load. -/
 def coherentPublication : Bool :=
